@@ -57,7 +57,46 @@ def _on_prof(signum, frame):
 # removed, __debug__ False), 'debuglog' = the library's loggers enabled at DEBUG level (what --debug / a DEBUG root
 # logger gives a user). The runner re-runs a slice of every check in a child process per axis.
 AXIS = os.environ.get('VERIF_AXIS', '')
-AXES = ('opt', 'debuglog')
+AXES = ('opt', 'debuglog', 'tz', 'thread')
+# 'tz': the process runs in a time zone with daylight saving (POSIX rule, no tz database needed): nothing in the
+# library's contract depends on the local zone. 'thread': every task runs in a thread other than the main thread
+# (the one that imported the library), as a server or a worker pool would call it.
+AXIS_ENV = {'tz': {'TZ': 'EST5EDT,M3.2.0,M11.1.0'}}
+AXIS_TEXT = {'opt': 'the interpreter runs with -O (assert statements removed)',
+             'debuglog': "the library's loggers are enabled at DEBUG level",
+             'tz': 'the process time zone has daylight saving (TZ=EST5EDT,M3.2.0,M11.1.0)',
+             'thread': 'the calls are made from a thread other than the one that imported the library'}
+# relative cost: the first two axes run every 4th (thorough: 2nd) task, the later two every 8th (thorough: 4th)
+AXIS_STRIDE_FACTOR = {'opt': 1, 'debuglog': 1, 'tz': 2, 'thread': 2, 'nodateutil': 1}
+# 'nodateutil' (only for checks that name it in EXTRA_AXES): python-dateutil is an optional extra of the package; a
+# plain installation does not have it and the library then parses date text with datetime.fromisoformat
+AXIS_TEXT['nodateutil'] = 'python-dateutil (an optional extra) is not installed'
+if AXIS == 'nodateutil':
+    sys.modules['dateutil'] = None
+    sys.modules['dateutil.parser'] = None
+
+
+def call_on_axis(fn, arg):
+    """fn(arg) - in a fresh non-main thread on the 'thread' axis (exceptions are re-raised here; a thread that
+    does not come back within the task CPU limit is abandoned and reported as non-termination)"""
+    if AXIS != 'thread':
+        return fn(arg)
+    import threading
+    box = {}
+
+    def body():
+        try:
+            box['v'] = fn(arg)
+        except BaseException as ex:      # noqa
+            box['e'] = ex
+    t = threading.Thread(target=body, daemon=True)
+    t.start()
+    t.join(task_cpu_limit(_TIER['tier']) * 2)
+    if t.is_alive():
+        raise TaskTimeout()
+    if 'e' in box:
+        raise box['e']
+    return box['v']
 # slice of the task list a child process runs: (stride, offset); (1, 0) = everything
 SELECT = (1, 0)
 
@@ -184,7 +223,7 @@ def _worker(fn, tasks, idx, n, conn):
             # CPU-time watchdog around every task: a library loop that never ends becomes a verdict, not a stuck check
             signal.setitimer(signal.ITIMER_PROF, task_cpu_limit(_TIER['tier']), 5.0)   # re-fires if swallowed
             try:
-                out.append((i, fn(tasks[i])))
+                out.append((i, call_on_axis(fn, tasks[i])))
             finally:
                 signal.setitimer(signal.ITIMER_PROF, 0)
         conn.send(('ok', out))
@@ -203,7 +242,7 @@ def pmap(fn, tasks, nworkers=None):
     n = min(nworkers or NWORKERS, max(1, len(tasks)))
     if n <= 1 or os.environ.get('VERIF_SERIAL'):
         quiet_library()
-        return [fn(t) for t in tasks]
+        return [call_on_axis(fn, t) for t in tasks]
     ctx = multiprocessing.get_context('fork')
     procs = []
     for idx in range(n):
